@@ -94,6 +94,10 @@ CLAIMED = {
             "do_start() has a single call site, in Activity::start, dominated by dependencies_solved() && is_assigned() (and dependencies_solved is dependencies_.empty()); the dependency set is erased only by release_dependencies/remove_successor and filled only by add_successor, release_dependencies is reached only under state == FINISHED in complete() and for detached DONE comms in CommImpl::finish; its loop erases this from each successor's set, starts the successor iff that set became empty and pops it; add/remove_successor update both sides on the same path; the seven S4U setters that write a field read by is_assigned() call start() on every path on which state_ may be STARTING. Together these are the code-shape conditions of 'starts only after all predecessors finished successfully and as soon as assigned', for every DAG and assignment order.",
             "Start dates and the DAG loaders are not decided; Comm/Io size-0 'cannot start yet' paths are an accepted idiom (the user must call start()); Task (s4u::Task tokens) is a different mechanism and not covered.",
             'DESIGN.md §3 C13'),
+    'C12': ('CFG path rules with dataflow identity (timer date), guard truth table of the timeout callback, finite-state abstract exploration (disarming), exception-handler analysis, sibling rule on simcall registration (base-class delegation inlined)',
+            "The timer of ActivityImpl::wait_for / wait_any_for is armed exactly for timeout >= 0 with date get_clock()+timeout and kept in the simcall's timeout_cb_; the timeout callback of wait_for times out only on paths that excluded a model action FINISHED or FAILED at the deadline (completion at the deadline counts as completed) and then unregisters, reports true and answers; completion disarms the timer in unregister_first_simcall; wait_for_or_cancel cancels inside its TimeoutException handler; the wait_any_for timeout unregisters the simcall from every activity and answers -1, which ActivitySet::wait_any_for maps to TimeoutException; all nine wait_for overrides register exactly one simcall per path; the S4U layer passes the user timeout unchanged and throws iff the simcall returns true. These hold for every timeout value and every completion date.",
+            'That Timer::set fires at its date is C03; the relative order of a timer and an action ending at the same date is the one of EngineImpl::run (timers first), assumed; model-checking paths of wait_any_for are skipped (timeouts unsupported there, asserted by the code).',
+            'DESIGN.md §3 C12'),
 }
 
 NOT_APPLICABLE = {
